@@ -953,9 +953,12 @@ func (c *c11World) call(r *c11Req) {
 	}
 	// (the source must also still be running: an injected failure that fires in block processing ends
 	// the run through the core loop's fail-stop, whose clean-up stops writing - not this request)
-	if r.isStart && healthy && err != nil && !fired && c.state() == c11Healthy && c.any.Running() && c.fires == firesBefore {
-		// a START that is refused leaves nothing behind: reported state and writers as before
-		if snapAfter := c.writingSnapshot(); snapAfter != snapBefore {
+	if r.isStart && healthy && err != nil && !fired {
+		// a START that is refused leaves nothing behind: reported state and writers as before.
+		// The snapshot is taken first and the run's health is read afterwards (taking the snapshot has
+		// scheduling points: a run that the hardware ends meanwhile stops its writing by itself).
+		snapAfter := c.writingSnapshot()
+		if c.up && !c.termSent && c.fires == firesBefore && c.any.Running() && snapAfter != snapBefore {
 			simrt.Fail("C11.refused-start", "reply:refused-start-changed-state", "%s(%s) was refused (%s) but changed the writing state\nbefore: %s\nafter:  %s", r.kind, r.desc, reply, snapBefore, snapAfter)
 		}
 		simrt.Hit("start-refused-cleanly")
